@@ -171,6 +171,30 @@ def d45(ctx, rep, prog):
     folds = [(k, c) for k in kids for c in prog.bodies[k]['calls'] if c['callee'].endswith('AddAssign>::add_assign') or 'add_assign' in c['callee']]
     ok = bool(folds) and any('BTreeMap' in ' '.join(prog.bodies[k]['locals'].values()) for k, _ in folds)
     rep.check(ok, 'D4', 'collector:ordered-map-fold', 'per-file results folded with += into a BTreeMap keyed by crate', 'the collector no longer folds per-file results with `+=` into an ordered map keyed by crate name', {'file': 'cli/src/parse.rs', 'line': prog.bodies[pp[0]]['line']})
+    # D4 merge order: the fold must consume the per-file results in an order that is a function of the inputs
+    # (a sorted buffer), not in channel arrival order — the sort after the merge is stable and its key is the Rust
+    # name only, so same-named items keep their merge order.
+    for k, a in folds[:1]:
+        b = prog.bodies[k]
+        site = {'file': a['file'], 'line': a['line']}
+        srcs = [c for c in b['calls'] if re.search(r'Iterator>::next$|Receiver::<T>::(recv|try_recv|recv_timeout)$', c['callee']) and prog.dominates(b, c['bb'], a['bb'])]
+        if not srcs:
+            raise core.Incomplete('collector: the loop feeding `+=` was not recognised')
+        src = max(srcs, key=lambda c: sum(1 for d in srcs if prog.dominates(b, d['bb'], c['bb'])))
+        ty = (src.get('arg_tys') or [''])[0]
+        if re.search(r'crossbeam|mpsc|Receiver|channel', ty):
+            rep.fail('D4', 'collector:merge-order', f"the collector folds per-file results with `+=` directly in channel arrival order (`{ty[:70]}`): the later sort is stable and compares the Rust name only, so same-named items (cfg variants, same-named types in different files) are written in the order the walker threads happened to finish", site)
+        elif re.search(r'hash_map|hash_set|HashMap|HashSet', ty):
+            rep.fail('D4', 'collector:merge-order', f'the collector folds per-file results in hash iteration order (`{ty[:70]}`)', site)
+        elif re.search(r'vec::IntoIter|slice::Iter|vec::Drain', ty):
+            its = [c for c in b['calls'] if c['callee'].endswith('IntoIterator>::into_iter') and prog.dominates(b, c['bb'], src['bb'])]
+            sorts = [c for c in b['calls'] if re.search(r'slice::<impl \[T\]>::sort(_unstable)?(_by|_by_key|_by_cached_key)?$', c['callee'])
+                     and 'ParsedData' in ' '.join(c.get('arg_tys') or []) and its and all(prog.dominates(b, c['bb'], i['bb']) for i in its[-1:])]
+            rep.check(bool(sorts), 'D4', 'collector:merge-order', f"per-file results are buffered and sorted (`{sorts[0]['snippet'][:60] if sorts else ''}`) before the fold", 'the collector buffers the per-file results but folds them without sorting the buffer first: the merge order is still the channel arrival order, and the later stable sort by Rust name keeps it for same-named items', site)
+        elif re.search(r'btree', ty):
+            rep.ok('D4', 'collector:merge-order', f'fold iterates an ordered collection (`{ty[:60]}`)', site)
+        else:
+            raise core.Incomplete(f'collector: unrecognised source of the fold loop: {ty[:80]}')
     # D5 sorts
     pd = ctx.item('struct', 'ParsedData')
     ra = ctx.fn('reconcile_aliases', file='reconcile.rs')
@@ -199,7 +223,7 @@ def d45(ctx, rep, prog):
             continue
         txt = vt.show(cmpf[0]['tail'])
         only_orig = 'original' in txt and 'renamed' not in txt and 'fields' not in txt
-        rep.check(not only_orig, 'D5', f'sort-key-total:{ty}', 'key covers the item', f"Ord for {ty} compares `id.original` only and the sort is stable: two items with the same Rust name (same-named types in different files/modules, cfg variants) keep their arrival order, which depends on thread scheduling", {'file': cmpf[0]['file'], 'line': cmpf[0]['line']})
+        rep.check(not only_orig, 'D5', f'sort-key-total:{ty}', 'key covers the item', f"Ord for {ty} compares `id.original` only and the sort is stable: two items with the same Rust name (same-named types in different files/modules, cfg variants) keep their merge order (file-path order), so the output depends on how those items are split across source files", {'file': cmpf[0]['file'], 'line': cmpf[0]['line']})
     # D6 push unconditional
     p = ctx.fn('ParsedData::push', file='parser.rs')
     for c in p['calls']:
